@@ -34,12 +34,13 @@ claim("C07", "Lean 4 theorems (guard analysis per index site, induction over the
 
 claim("C15", "Lean 4 theorems (byte-wise classification by decide +kernel, equality of functions of the whole buffer) + dense differential correspondence",
       "Proved for the model: rtu/tcp response_pdu_len and tcp request_pdu_len EQUAL the specification's predictor (Spec/Lengths.lean) as functions of the whole buffer, so the answer depends only on the length, "
-      "the function code and the count byte(s) (…_depends_only); rtu request_pdu_len equals it except for 0x0F/0x10 (…_partial), whose exact defective behaviour is pinned (rtu_req_len_defect, witness).",
+      "the function code and the count byte(s) (…_depends_only); rtu request_pdu_len equals it except for 0x0F/0x10 (…_partial), whose exact defective behaviour is pinned (rtu_req_len_defect, witness; rtu_req_len_depends_only_partial / …_asbuilt give the dependence statement for RTU requests as well).",
       "Open finding D4 (RTU 0x0F/0x10 reads offset 4) is pinned by the unedited test suite; see KNOWN_FINDINGS.txt. Correspondence covers all 256 function codes x lengths 0..24 x count values at every candidate position.")
 
 claim("C16", "Lean 4 theorems (bit-level loop invariant for the packing loop, byte extensionality, induction over coil lists) + differential correspondence (exhaustive to 10/16 coils)",
       "Proved for the model, for every boolean list of any length and every prior target content: pack_coils yields ceil(n/8) bytes equal to the specification's arithmetic packing (coil i = bit i mod 8 of byte i div 8, padding zero), "
-      "independent of what the target held, bytes beyond untouched; unpack, get (for EVERY index value), iteration return exactly the booleans; too-small targets/sources are errors, never panics (Props/C16.lean).",
+      "independent of what the target held, bytes beyond untouched; unpack, get (for EVERY index value), iteration return exactly the booleans; too-small targets/sources are errors, never panics; the VALUE from_bools returns is "
+      "exactly <packBits bs, n>, the same for any two targets (from_bools_value, from_bools_value_independent; fix 17b455d) (Props/C16.lean).",
       "Correspondence: all boolean sequences up to 10 (quick) / 16 (thorough) coils x clean/dirty/patterned targets, byte boundaries up to 2049, 65536+ coils, indices up to usize::MAX.")
 
 claim("C17", "Lean 4 theorems (induction over word lists; the target does not occur in the result) + differential correspondence",
@@ -68,7 +69,8 @@ claim("C06", "Lean 4 theorems (register algebra on BitVec 16, byte-wise simulati
 claim("C08", "Lean 4 theorems (soundness by guard analysis; error detection by linearity of the CRC register, the back-step argument for bursts, and a kernel-computed orbit for bit pairs) + differential correspondence + fault-injection search",
       "Proved for the model: (soundness) whatever extract_frame, the scanners or the RTU ADU decoders return lies inside the input at the reported location, size = PDU length + 3, slave id and PDU are the bytes there, "
       "and the two bytes after the PDU equal crc16 of slave id and PDU (Props/C08.lean); (error detection, every frame length) a frame accepted at full length and altered by any single-bit error, any burst of <= 16 bits, "
-      "or any double-bit error (frames <= 256 bytes; also proved up to 4095 bytes) is rejected with a CRC error at its original position (Props/C08Crc.lean: crc_detects and its parts).",
+      "or any double-bit error (frames <= 256 bytes; also proved up to 4095 bytes) is rejected with a CRC error at its original position (Props/C08Crc.lean: crc_detects and its parts); "
+      "C08Full.lean carries both halves through the scanners and ADU decoders for every built value, also for a corrupted frame embedded at any offset after arbitrary bytes (…_embedded).",
       "The oracle's fault injection (all single-bit flips, sampled bursts and bit pairs on generated frames) is the search for a failing input, not the verdict.")
 
 claim("C09", "Lean 4 theorems (guard analysis of extract_frame and of the scan loop) + differential correspondence around every header field",
@@ -86,19 +88,22 @@ claim("C14", "Lean 4 theorems (complete characterisation of the scan loop for an
 claim("C01", "Lean 4 theorems (decoder on each layout, composition with the encoder equation and the packing theorems) + differential correspondence + round-trip oracle",
       "Proved for the model, for every request built through the public constructors (any target capacity/contents; all 16-bit field values; 1..2040 coils, 1..127 words; every unmodelled custom code < 0x80 with any data): "
       "encoding into any large-enough buffer succeeds, returns exactly pdu_len, and decoding those bytes gives a request with the same meaning (req_roundtrip); for values outside the limits or custom codes >= 0x80 the decoder "
-      "may refuse but never returns a different request (req_never_other, req_high_custom_refused) (Props/C01.lean).",
+      "may refuse but never returns a different request (req_never_other, req_high_custom_refused); for every non-custom kind (and customs carrying FunctionCode::Custom) the IDENTICAL value comes back "
+      "(req_roundtrip_exact, after fix 17b455d) (Props/C01.lean).",
       "Meaning = Lemmas/Sem.lean (kind, fields, coil/word lists read through iteration; custom: code byte and data). A custom request whose code IS a modelled kind decodes as that kind (witness in the file); the property excludes those.")
 
 claim("C02", "Lean 4 theorems (decoder on each layout, padTo8 algebra, byte-wise case analysis for the exception marker) + differential correspondence (exception table exhaustive) + round-trip oracle",
       "Proved for the model, for every response built through the public constructors: encode returns exactly pdu_len and decoding gives the same kind with identical fields and register words; coil payloads come back with identical leading coils, "
       "count 8*ceil(n/8), padding off (rsp_roundtrip, rsp_roundtrip_coils); custom responses with any unmodelled code keep code byte and data; every exception (all f < 0x80, all nine codes, both FunctionCode constructions) "
-      "encodes to two bytes and decodes back to the same function value and exception (exc_roundtrip) (Props/C02.lean).",
+      "encodes to two bytes and decodes back to the same function value and exception (exc_roundtrip); read-exception-status comes back as itself (rsp_read_exception_status_roundtrip, fix c4ddc91); "
+      "ANY backed coil container, however obtained, comes back with identical leading coils and padding off (rsp_roundtrip_coils_any, fix 30346fb); rsp_roundtrip_exact / rsp_roundtrip_exact_coils_iff say when the identical value returns (Props/C02.lean).",
       "Response::WriteSingleCoil round-trips in the crate's own three-byte form (its non-conformance to the specification is C03's open finding D12).")
 
 claim("C03", "Lean 4 theorems against an independent statement of the wire layouts (Spec/Wire.lean, Spec/Bits.lean) + differential correspondence + reference-encoder oracle",
       "Proved for the model: the image of every built request equals the specification's bytes (function code, big-endian fields, byte count = payload length, LSB-first coil packing with zero padding, FF00/0000) and every "
       "in-scope specification PDU decodes to the meaning the specification assigns (req_conforms, req_decodes_spec; Props/C03Req.lean); the same for responses and exception responses as ..._partial excluding exactly "
-      "Response::WriteSingleCoil, whose three-byte image is proved different from the five-byte echo for every address (rsp_conforms_partial, rsp_write_single_coil_defect, exc_conforms, rsp_decodes_spec; Props/C03Rsp.lean).",
+      "Response::WriteSingleCoil, whose three-byte image is proved different from the five-byte echo for every address (rsp_conforms_partial, rsp_write_single_coil_defect, exc_conforms, rsp_decodes_spec; Props/C03Rsp.lean); "
+      "req_conforms_any / rsp_conforms_any_partial extend conformance from constructor-built values to EVERY well-formed value (containers taken from decoded PDUs included: padding is zero on the wire whatever the container holds).",
       "Open finding D12 (WriteSingleCoil response is 3 bytes) is pinned by three unedited unit tests; see KNOWN_FINDINGS.txt. Spec/*.lean is trusted as a transcription of the Modbus Application Protocol v1.1b3.")
 
 claim("C04", "Lean 4 theorems composing the ADU encoder equation, the reception theorems (C10) and the PDU decoders + differential correspondence over all 256 slave ids + round-trip oracle",
@@ -118,7 +123,8 @@ claim("C13", "Lean 4 theorems (inversion of the decoders, coherence of the decod
       "Proved for the model: EVERY value Response.decode returns is coherent (len; get returns an item below len and nothing at or above it for every index value; iteration yields len items; pdu_len and encode never panic; "
       "re-encode/decode gives the same meaning) and encodes into every buffer >= pdu_len (rsp_decoded_coherent, rsp_decoded_encodes); for requests the same holds IFF the input is not a write-multiple-coils request whose data is "
       "shorter than ceil(quantity/8) (req_decoded_coherent_iff; ..._partial forms; witness for 0F 33 11 00 04 00, also through both ADU decoders); decoded register data holds exactly 2*quantity bytes and "
-      "re-encode/decode returns the very same value (rsp_decoded_data_exact, rsp_redecode_exact) (Props/C13.lean).",
+      "re-encode/decode returns the very same value (rsp_decoded_data_exact, rsp_redecode_exact); a decoded request can be encoded again IFF it is not in the truncated class (req_decoded_encodes_iff, req_decoded_reencodes, "
+      "req_decoded_qty_bound; after fix 39c2069) (Props/C13.lean).",
       "The excluded region is exactly open finding D5b, pinned by the unedited unit test deserialize_requests::write_multiple_coils; see KNOWN_FINDINGS.txt.")
 
 claim("C19", "Lean 4 theorems (the encoder's outcome is a function of `fits`) + differential correspondence at sizes 120..300, 1000, 32767..70000 words and 1960..2100, 4000, 65536+ coils",
@@ -126,4 +132,5 @@ claim("C19", "Lean 4 theorems (the encoder's outcome is a function of `fits`) + 
       "(count fields equal the payload) and decode to an equivalent value; if the payload does not fit the one-byte count, encode is an error for every buffer "
       "(req_no_truncation, req_encode_outcome, rsp_no_truncation, rsp_error_or_exact, count_fields_*; Props/C19Req.lean, C19Rsp.lean).",
       "Values assembled from DECODED containers are covered too (Props/C19X.lean: the Data of any decoded register response has exactly 2*quantity bytes and, placed in a write request, encodes to the specification's bytes of its words - "
-      "this failed before fix 016c806). The MBAP length field of the TCP ADU encoders is C05/C12 (fix eae7d15: an over-long custom PDU is refused; tcp_length_field_never_wraps).")
+      "this failed before fix 016c806; Props/C19Wf.lean: the same for EVERY well-formed value - closure of well-formedness under the four public sources of a container, "
+      "req_wf_no_truncation / rsp_wf_no_truncation / req_wf_conforms / rsp_wf_conforms, with the open-finding D5b region as the exact exception). The MBAP length field of the TCP ADU encoders is C05/C12 (fix eae7d15: an over-long custom PDU is refused; tcp_length_field_never_wraps).")
